@@ -342,6 +342,12 @@ func FSExists(name string) bool { _, err := os.Stat(name); return err == nil }
 // FSList lists the files the model knows (engine) / nothing natively.
 func FSList() []string { return nil }
 
+// AbstractBigMod makes the engine treat big.Int.Mod of a symbolic value as an
+// uninterpreted function constrained by r < m and (x < m -> r = x): a sound
+// over-approximation for no-panic obligations where exact 128-bit remainders
+// by a constant are out of the solvers' reach.  Native: no effect.
+func AbstractBigMod() {}
+
 // FixRandom makes crypto/rand deliver constant bytes in the engine (for code
 // whose random draws only name things, e.g. temporary files).
 func FixRandom(b byte) {}
